@@ -608,6 +608,12 @@ pub fn regression_pairs() -> Vec<(T, T)> {
         (ty::slice(ty::ptr(false, i32_)), ty::slice(ty::ptr(true, i32_))),
         (ty::arr(2, ty::ptr(false, i32_)), ty::arr(2, ty::ptr(true, i32_))),
         (ty::opt(ty::ptr(false, i32_)), ty::opt(ty::ptr(true, i32_))),
+        // `.{ … }` literals whose members have a nominal type, where a struct with members of
+        // another nominal type of the same structure is expected (seeded change C13_3)
+        (ty::astruct(&[d1]), ty::strukt(3, &[d2])),
+        (ty::astruct(&[d1, i32_]), ty::strukt(4, &[d2, i32_])),
+        (ty::astruct(&[s1, d1]), ty::strukt(5, &[s2, d1])),
+        (ty::astruct(&[d1]), ty::strukt(6, &[d1])),
     ]
 }
 
